@@ -23,7 +23,8 @@ pub fn cshape_of(s: &Shape) -> CShape {
     }
 }
 /// Per cell name: (instances, elements) as sorted multisets. Err(description) if a layer/purpose cannot be resolved.
-pub fn summarize(lib: &Library) -> Result<BTreeMap<String, (Vec<InstKey>, Vec<ElemKey>)>, String> {
+/// `defs`: the generator's own record of purpose numbers, consulted before the library's `Layer::num` (which is code under test)
+pub fn summarize(lib: &Library, defs: &crate::gen::rawgen::LayerDefs) -> Result<BTreeMap<String, (Vec<InstKey>, Vec<ElemKey>)>, String> {
     let layers = lib.layers.read().map_err(|_| "layers lock")?;
     let mut out = BTreeMap::new();
     for c in lib.cells.iter() {
@@ -38,7 +39,7 @@ pub fn summarize(lib: &Library) -> Result<BTreeMap<String, (Vec<InstKey>, Vec<El
             let mut elems: Vec<ElemKey> = Vec::new();
             for e in &lay.elems {
                 let l = layers.get(e.layer).ok_or("unknown layer key")?;
-                let pn = l.num(&e.purpose).ok_or(format!("purpose {:?} has no number on layer {}", e.purpose, l.layernum))?;
+                let pn = defs.num_of(e.layer, &e.purpose).or_else(|| l.num(&e.purpose)).ok_or(format!("purpose {:?} has no number on layer {}", e.purpose, l.layernum))?;
                 elems.push((l.layernum, pn, cshape_of(&e.inner), e.net.as_ref().map(|n| n.to_lowercase())));
             }
             elems.sort();
@@ -98,7 +99,7 @@ impl Prop for C07 {
         let cfg = RawCfg::gds();
         let g = rand_raw_lib(&mut cx.rng, &cfg);
         cx.eval();
-        let want = match summarize(&g.lib) {
+        let want = match summarize(&g.lib, &g.defs) {
             Ok(w) => w,
             Err(e) => {
                 cx.inconclusive(format!("generator: {}", e));
@@ -202,7 +203,7 @@ impl Prop for C07 {
             cx.violation(&format!("units-changed|{}", unit), json!({"want": unit, "got": format!("{:?}", back.units)}));
             return;
         }
-        let got = match summarize(&back) {
+        let got = match summarize(&back, &g.defs) {
             Ok(s) => s,
             Err(e) => {
                 cx.violation("import|unresolvable-layer", json!({"error": e}));
